@@ -103,7 +103,7 @@ class Ctx:
     cur = None
 
     def __init__(self, assumptions=(), plan=(), timeout_ms=20000, stats=None,
-                 seed=0):
+                 seed=0, branch_timeout_ms=10000):
         self.assumptions = list(assumptions)
         self.plan = list(plan)
         self.trail = []          # [(formula, forced)] decisions taken, in order
@@ -111,6 +111,7 @@ class Ctx:
         self.pending = []        # alternative plans discovered on this path
         self.axioms = []         # [(owner_name, formula, group)]
         self.timeout_ms = timeout_ms
+        self.branch_timeout_ms = min(branch_timeout_ms, timeout_ms)
         self.stats = stats if stats is not None else Stats()
         self.seed = seed
         self.nfresh = 0
@@ -177,10 +178,10 @@ class Ctx:
             return k
         feas = []
         for k, a in enumerate(alts):
-            r, _ = self.solve([a], kind="branch")
+            r, _ = self.solve([a], kind="branch", timeout_ms=self.branch_timeout_ms)
             if r == "unknown":
                 # second chance with the complete constraint set
-                r, _ = self.solve([a], kind="branch", full=True)
+                r, _ = self.solve([a], kind="branch", full=True, timeout_ms=self.branch_timeout_ms)
             if r == "unknown":
                 raise Inconclusive("unknown at %s: %s" % (what, str(a)[:200]))
             if r == "sat":
@@ -305,6 +306,8 @@ def toz(v):
         return z3.RealVal(v)
     if isinstance(v, Fraction):
         return q_of(v)
+    if isinstance(v, Surd):
+        return v.zterm()
     if isinstance(v, float):
         if v != v or v in (math.inf, -math.inf):
             raise NotEncodable("non-finite float")
@@ -325,7 +328,7 @@ def exact(v):
     """concrete number -> int/Fraction"""
     if isinstance(v, bool):
         return int(v)
-    if isinstance(v, (int, Fraction)):
+    if isinstance(v, (int, Fraction, Surd)):
         return v
     if isinstance(v, float):
         if v != v or v in (math.inf, -math.inf):
@@ -355,6 +358,127 @@ def zval_to_fraction(v):
     if z3.is_int_value(v):
         return Fraction(v.as_long())
     raise ValueError("not a numeral: %s" % v)
+
+
+# --------------------------------------------------------------------------
+# quadratic surds a + b*sqrt(c): exact value of sqrt of a non-square rational
+# --------------------------------------------------------------------------
+class Surd:
+    """a + b*sqrt(c), a, b rational, c a positive non-square rational.  Only
+    what evo does with such constants is supported (scaling, products)."""
+    __slots__ = ("a", "b", "c")
+
+    def __init__(self, a, b, c):
+        self.a, self.b, self.c = Fraction(a), Fraction(b), Fraction(c)
+
+    @staticmethod
+    def make(a, b, c):
+        if b == 0:
+            a = Fraction(a)
+            return a.numerator if a.denominator == 1 else a
+        return Surd(a, b, c)
+
+    def __float__(self):
+        return float(self.a) + float(self.b) * math.sqrt(float(self.c))
+
+    def _other(self, o):
+        if isinstance(o, Surd):
+            if o.c != self.c:
+                raise NotEncodable("surds over different radicands")
+            return o.a, o.b
+        if isinstance(o, (int, Fraction)) and not isinstance(o, bool):
+            return Fraction(o), Fraction(0)
+        if isinstance(o, float):
+            return Fraction(o), Fraction(0)
+        return None
+
+    def __mul__(self, o):
+        ab = self._other(o)
+        if ab is None:
+            return NotImplemented
+        a2, b2 = ab
+        return Surd.make(self.a * a2 + self.b * b2 * self.c, self.a * b2 + self.b * a2, self.c)
+    __rmul__ = __mul__
+
+    def __add__(self, o):
+        ab = self._other(o)
+        if ab is None:
+            return NotImplemented
+        return Surd.make(self.a + ab[0], self.b + ab[1], self.c)
+    __radd__ = __add__
+
+    def __neg__(self):
+        return Surd(-self.a, -self.b, self.c)
+
+    def __sub__(self, o):
+        ab = self._other(o)
+        if ab is None:
+            return NotImplemented
+        return Surd.make(self.a - ab[0], self.b - ab[1], self.c)
+
+    def __rsub__(self, o):
+        return (-self) + o
+
+    def inverse(self):
+        d = self.a * self.a - self.b * self.b * self.c
+        return Surd.make(self.a / d, -self.b / d, self.c)
+
+    def __truediv__(self, o):
+        if isinstance(o, Surd):
+            return self * o.inverse()
+        ab = self._other(o)
+        if ab is None:
+            return NotImplemented
+        return Surd.make(self.a / ab[0], self.b / ab[0], self.c)
+
+    def __rtruediv__(self, o):
+        return self.inverse() * o
+
+    def __pow__(self, k):
+        if k == 2:
+            return self * self
+        raise NotEncodable("surd power")
+
+    def __abs__(self):
+        return self if float(self) >= 0 else -self
+
+    def _cmp(self, o):
+        return float(self) - float(o)
+
+    def __lt__(self, o): return self._cmp(o) < 0
+    def __le__(self, o): return self._cmp(o) <= 0
+    def __gt__(self, o): return self._cmp(o) > 0
+    def __ge__(self, o): return self._cmp(o) >= 0
+
+    def __eq__(self, o):
+        if isinstance(o, Surd):
+            return (self.a, self.b, self.c) == (o.a, o.b, o.c)
+        return False
+
+    def __ne__(self, o):
+        return not self.__eq__(o)
+
+    def __hash__(self):
+        return hash((self.a, self.b, self.c))
+
+    def __deepcopy__(self, memo):
+        return self
+
+    def __repr__(self):
+        return "Surd(%s + %s*sqrt(%s))" % (self.a, self.b, self.c)
+
+    def __format__(self, spec):
+        return format(float(self), spec)
+
+    def zterm(self):
+        """z3 term: a + b*r with r the memoised positive root variable of c"""
+        c = ctx()
+        memo = c.memo.setdefault("sqrtc", {})
+        if self.c not in memo:
+            r = c.fresh("sqrtc")
+            c.axiom(r, z3.And(r > 0, r * r == q_of(self.c)))
+            memo[self.c] = r
+        return q_of(self.a) + q_of(self.b) * memo[self.c]
 
 
 # --------------------------------------------------------------------------
@@ -410,10 +534,22 @@ def boolz(b):
 
 
 class SymReal:
-    __slots__ = ("z",)
+    """value = k * t  (k exact scalar: int/Fraction/Surd; t a z3 Real term).  The
+    scalar is tracked separately so that constant factors (sqrt(2) in
+    quaternion_matrix, unit factors) combine exactly instead of growing terms."""
+    __slots__ = ("_t", "_k", "_z")
 
-    def __init__(self, z):
-        self.z = z
+    def __init__(self, z, k=1):
+        self._t = z
+        self._k = k
+        self._z = z if (isinstance(k, int) and k == 1) else None
+
+    @property
+    def z(self):
+        if self._z is None:
+            k = self._k
+            self._z = (k.zterm() if isinstance(k, Surd) else q_of(k)) * self._t
+        return self._z
 
     # arithmetic ----------------------------------------------------------
     def _coerce(self, o):
@@ -423,6 +559,8 @@ class SymReal:
             return POISON
         if is_conc(o):
             return toz(o)
+        if isinstance(o, Surd):
+            return o.zterm()
         return None
 
     def __add__(self, o):
@@ -459,28 +597,31 @@ class SymReal:
         return SymReal(b - self.z)
 
     def __mul__(self, o):
+        if isinstance(o, Surd):
+            return SymReal(self._t, self._k * o)
         if is_conc(o):
             if o == 0:
                 return 0
             if o == 1:
                 return self
-            if o == -1:
-                return SymReal(-self.z)
-        b = self._coerce(o)
-        if b is None:
-            return NotImplemented
-        if b is POISON:
+            return SymReal(self._t, self._k * exact(o))
+        if o is POISON:
             return POISON
-        return SymReal(self.z * b)
+        if isinstance(o, SymReal):
+            k = self._k * o._k
+            return SymReal(self._t * o._t, k)
+        return NotImplemented
     __rmul__ = __mul__
 
     def __truediv__(self, o):
+        if isinstance(o, Surd):
+            return SymReal(self._t, self._k * o.inverse())
         if is_conc(o):
             if o == 0:
                 return POISON
             if o == 1:
                 return self
-            return SymReal(self.z * toz(1 / Fraction(exact(o))))
+            return SymReal(self._t, self._k * (1 / Fraction(exact(o))))
         if o is POISON:
             return POISON
         if isinstance(o, SymReal):
@@ -495,7 +636,7 @@ class SymReal:
         return NotImplemented
 
     def __neg__(self):
-        return SymReal(-self.z)
+        return SymReal(self._t, -self._k)
 
     def __pos__(self):
         return self
@@ -592,7 +733,8 @@ def forced_const(zt, use_path=True):
     zs = z3.simplify(zt)
     if z3.is_rational_value(zs):
         return zval_to_fraction(zs)
-    if len(term_vars(zs)) > 12 or len(zs.sexpr()) > 4000:
+    tv = term_vars(zs)
+    if len(tv) > 12 or any("!" in v for v in tv) or len(zs.sexpr()) > 4000:
         return None
     memo = c.memo.setdefault("fc", {})
     key = zs.get_id()
@@ -610,6 +752,66 @@ def forced_const(zt, use_path=True):
     return res
 
 
+def syntactically_nonneg(t, depth=0):
+    """cheap sufficient test: sums of squares, positive multiples, If of such"""
+    if depth > 6:
+        return False
+    if z3.is_rational_value(t):
+        return zval_to_fraction(t) >= 0
+    if not z3.is_app(t):
+        return False
+    k = t.decl().kind()
+    ch = t.children()
+    if k == z3.Z3_OP_ADD:
+        st, leaves = list(ch), []
+        while st:
+            c = st.pop()
+            if z3.is_app(c) and c.decl().kind() == z3.Z3_OP_ADD:
+                st.extend(c.children())
+            else:
+                leaves.append(c)
+        return all(syntactically_nonneg(c, depth + 1) for c in leaves)
+    if k == z3.Z3_OP_MUL:
+        rest = []
+        for c in ch:
+            if z3.is_rational_value(c):
+                if zval_to_fraction(c) < 0:
+                    return False
+            else:
+                rest.append(c)
+        # flatten nested products
+        flat = []
+        for c in rest:
+            if z3.is_app(c) and c.decl().kind() == z3.Z3_OP_MUL:
+                flat.extend(c.children())
+            else:
+                flat.append(c)
+        if any(z3.is_rational_value(c) and zval_to_fraction(c) < 0 for c in flat):
+            return False
+        flat = [c for c in flat if not z3.is_rational_value(c)]
+        cnt = {}
+        for c in flat:
+            cnt[c.get_id()] = cnt.get(c.get_id(), 0) + 1
+        odd = [c for c in flat if cnt[c.get_id()] % 2]
+        seen = set()
+        for c in odd:
+            if c.get_id() in seen:
+                continue
+            seen.add(c.get_id())
+            if not syntactically_nonneg(c, depth + 1):
+                return False
+        return True
+    if k == z3.Z3_OP_ITE:
+        return syntactically_nonneg(ch[1], depth + 1) and syntactically_nonneg(ch[2], depth + 1)
+    if k == z3.Z3_OP_POWER:
+        e = ch[1]
+        return z3.is_rational_value(e) and zval_to_fraction(e) % 2 == 0
+    if z3.is_const(t):
+        r = ctx().memo.get("radicand", {})
+        return t.get_id() in r or t.get_id() in ctx().memo.get("nonneg_atoms", set())
+    return False
+
+
 def sym_sqrt(x):
     """sqrt with domain check; sqrt of a forced constant is exact/algebraic"""
     if x is POISON:
@@ -623,6 +825,8 @@ def sym_sqrt(x):
         x = exact(x)
         if x is POISON:
             return POISON
+        if isinstance(x, Surd):
+            raise NotEncodable("sqrt of a surd")
         if x < 0:
             return POISON
         fx = Fraction(x)
@@ -630,19 +834,13 @@ def sym_sqrt(x):
         if n * n == fx.numerator and d * d == fx.denominator:
             r = Fraction(n, d)
             return r.numerator if r.denominator == 1 else r
-        memo = c.memo.setdefault("sqrtc", {})
-        if fx in memo:
-            return memo[fx]
-        s = c.fresh("sqrtc")
-        c.axiom(s, z3.And(s > 0, s * s == q_of(fx)))
-        memo[fx] = SymReal(s)
-        return memo[fx]
+        return Surd(0, 1, fx)
     memo = c.memo.setdefault("sqrt", {})
     key = x.z.get_id()
     if key in memo:
         return memo[key][0]
     # domain: negative radicand -> poison (fork only if feasible)
-    if c.branch(x.z < 0):
+    if not syntactically_nonneg(x.z) and c.branch(x.z < 0):
         return POISON
     s = c.fresh("sqrt")
     c.axiom(s, z3.And(s >= 0, s * s == x.z))
